@@ -1143,14 +1143,13 @@ func genHistory(s *Stream, o0 *GenOpts) *History {
 		base := make([]byte, n)
 		used := map[byte]bool{0: true, 0xff: true}
 		for i := range base {
-			for {
-				v := byte(s.N(256))
-				if !used[v] {
-					used[v] = true
-					base[i] = v
-					break
-				}
+			// (a minimised tape answers 0 for ever: walk on from the drawn value)
+			v := byte(s.N(256))
+			for used[v] {
+				v++
 			}
+			used[v] = true
+			base[i] = v
 		}
 		le := func(b []byte) uint64 {
 			var v uint64
